@@ -484,7 +484,8 @@ fn check_message<T: Serialize + DeserializeOwned>(cx: &mut Ctx, ty: &'static str
     for pos in 0..=entries.len() {
         let k = unknown_ints[rng.below(unknown_ints.len())];
         try_injected(rep, Cbor::Integer(k.into()), pos, &k.to_string(), rng);
-        let t = *rng.pick(&["zzUnknown", "", "x-y", "RpId ", "client_data_hash"]);
+        // (also text that reads as a number: a text key is not an integer key)
+        let t = *rng.pick(&["zzUnknown", "", "x-y", "RpId ", "client_data_hash", "1", "2", "3", "03", "+4", "5", "9", "255", "-1"]);
         try_injected(rep, Cbor::Text(t.into()), pos, &format!("\"{t}\""), rng);
         // a text key that differs from a member's name in the case of its letters names no member
         // (capitalised and upper-case forms only: they can equal no lower-camel-case name)
